@@ -534,6 +534,18 @@ theorem C14_long_branch_counts_same_for_same_histories (D D' : Dataset) (hc : D.
         H.genomeSize d = H'.genomeSize d ∧ H.genomeSize a = H'.genomeSize a :=
   Pyham.C14_long_branch_counts_same_for_same_histories D D' hc hc' hT hlen hs
 
+/-- **C14, every vertical comparison, whole files, the reported clusters**: same histories -- for ANY two taxa the same number of
+    duplicated copies and of retained genes.  With the theorem above: the sizes of all four clusters of every comparison between
+    ancestral genomes do not depend on how the histories are spelled -/
+theorem C14_reported_counts_same_for_same_histories (D D' : Dataset) (hc : D.Consistent) (hc' : D'.Consistent)
+    (hlen : D.fams.length = D'.fams.length)
+    (hs : ∀ i (h1 : i < D.fams.length) (h2 : i < D'.fams.length),
+        (D.fams[i]).1 = (D'.fams[i]).1 ∧ SameL (D.fams[i]).2 (D'.fams[i]).2) :
+    ∃ H H', load D.T D.nm D.file = .ok H ∧ load D'.T D'.nm D'.file = .ok H' ∧ ∀ a d,
+      ((hogsMap H a d).dupl.map (·.2.length)).sum = ((hogsMap H' a d).dupl.map (·.2.length)).sum ∧
+      (hogsMap H a d).retained.length = (hogsMap H' a d).retained.length :=
+  Pyham.C14_reported_counts_same_for_same_histories D D' hc hc' hlen hs
+
 /-- **C14 for the tree profile at the species nodes**: same histories (any spelling) and species sections that declare the
     same genes for every species, in any order (`declaredAt` resolves the species names against the tree under the dataset's
     own naming mode) -- same profile entry at every leaf -/
